@@ -390,6 +390,10 @@ def run(run: Run):
     run.guard('C19.R2', r2, run, src, cg)
     run.guard('C19.R3', r3, run, src)
     borrow(run, 'C19.R4', c18.r2, src)
+    from .common import check_mutable_defaults
+    run.rule('C19.R5', 'nothing collected for one workbook survives into the report of the next (no mutable default changed or handed out)')
+    run.guard('C19.R5', check_mutable_defaults, run, 'C19.R5', src)
+    run.floor('C19.R5', 5)
     run.floor('C19.R1', 3)
     run.floor('C19.R2', 9)
     run.floor('C19.R3', 9)
